@@ -204,6 +204,7 @@ pub struct Features {
     pub raw_newline_in_string: bool,
     pub escapes: bool,
     pub multi_a2ml: bool,
+    pub positions_out_of_order: bool,
 }
 
 #[derive(Debug, Clone)]
@@ -219,6 +220,8 @@ pub struct GenOpts {
     pub raw_newline_strings: bool,
     /// probability (per 16) that an optional sub-element is generated at depth < 2
     pub density: u64,
+    /// position-restricted siblings (RECORD_LAYOUT) are not emitted in ascending position order
+    pub shuffle_positions: bool,
 }
 
 impl GenOpts {
@@ -233,11 +236,12 @@ impl GenOpts {
             escapes: t.chance(2, 3),
             raw_newline_strings: t.chance(1, 8),
             density: *t.pick(&[3u64, 6, 10]),
+            shuffle_positions: t.chance(1, 5),
         }
     }
 
     pub fn plain(budget: i64) -> GenOpts {
-        GenOpts { budget, allow_a2ml: false, allow_ifdata: false, unicode: false, wild_numbers: false, float_overflow: false, escapes: false, raw_newline_strings: false, density: 6 }
+        GenOpts { budget, allow_a2ml: false, allow_ifdata: false, unicode: false, wild_numbers: false, float_overflow: false, escapes: false, raw_newline_strings: false, density: 6, shuffle_positions: false }
     }
 }
 
@@ -298,7 +302,8 @@ impl<'t> DocGen<'t> {
                 }
                 9 if self.opts.escapes => {
                     self.feats.escapes = true;
-                    s.push_str(self.t.pick_str(&["a\"b", "C:\\dir\\file", "it's", "tab\there", "*/", "/*"]));
+                    // "\\n" is a backslash followed by the letter n (not a line break): it must come back as two characters
+                    s.push_str(self.t.pick_str(&["a\"b", "C:\\dir\\file", "it's", "tab\there", "*/", "/*", "\\n", "\\t", "\\r", "\\\"", "\\'"]));
                 }
                 _ => s.push_str("z"),
             }
@@ -581,6 +586,31 @@ impl<'t> DocGen<'t> {
         for t in ordered {
             let child = self.element(&t, depth + 1);
             node.body.push(Item::Node(child));
+        }
+        if tag == "RECORD_LAYOUT" && self.opts.shuffle_positions {
+            // exchange the position values of the position-restricted children: the writer will reorder them
+            let idxs: Vec<usize> = node
+                .body
+                .iter()
+                .enumerate()
+                .filter(|(_, it)| matches!(it, Item::Node(c) if matches!(g.elements[&c.tag].params.first(), Some(Param::Single(f)) if f.name == "position")))
+                .map(|(i, _)| i)
+                .collect();
+            if idxs.len() >= 2 {
+                let mut positions: Vec<String> = idxs.iter().map(|i| if let Item::Node(c) = &node.body[*i] { if let Some(Item::Tok(p)) = c.body.first() { p.clone() } else { String::new() } } else { String::new() }).collect();
+                for i in (1..positions.len()).rev() {
+                    let j = self.t.draw(i as u64 + 1) as usize;
+                    positions.swap(i, j);
+                }
+                for (k, i) in idxs.iter().enumerate() {
+                    if let Item::Node(c) = &mut node.body[*i] {
+                        if let Some(Item::Tok(p)) = c.body.first_mut() {
+                            *p = positions[k].clone();
+                        }
+                    }
+                }
+                self.feats.positions_out_of_order = true;
+            }
         }
         node
     }
@@ -1065,6 +1095,7 @@ pub fn merge_feats(a: &Features, b: &Features) -> Features {
         raw_newline_in_string: a.raw_newline_in_string || b.raw_newline_in_string,
         escapes: a.escapes || b.escapes,
         multi_a2ml: a.multi_a2ml || b.multi_a2ml,
+        positions_out_of_order: a.positions_out_of_order || b.positions_out_of_order,
     }
 }
 
